@@ -27,12 +27,20 @@ import (
 
 // Normalize compose project by moving deprecated attributes to their canonical position and injecting implicit defaults
 func Normalize(dict map[string]any, env types.Mapping) (map[string]any, error) {
-	normalizeNetworks(dict)
+	if err := normalizeNetworks(dict); err != nil {
+		return nil, err
+	}
 
 	if d, ok := dict["services"]; ok {
-		services := d.(map[string]any)
+		services, ok := d.(map[string]any)
+		if !ok {
+			return nil, fmt.Errorf("services: unexpected type %T", d)
+		}
 		for name, s := range services {
-			service := s.(map[string]any)
+			service, ok := s.(map[string]any)
+			if !ok {
+				return nil, fmt.Errorf("services.%s: unexpected type %T", name, s)
+			}
 
 			if service["pull_policy"] == types.PullPolicyIfNotPresent {
 				service["pull_policy"] = types.PullPolicyMissing
@@ -44,7 +52,10 @@ func Normalize(dict map[string]any, env types.Mapping) (map[string]any, error) {
 			}
 
 			if b, ok := service["build"]; ok {
-				build := b.(map[string]any)
+				build, ok := b.(map[string]any)
+				if !ok {
+					return nil, fmt.Errorf("services.%s.build: unexpected type %T", name, b)
+				}
 				if build["context"] == nil {
 					build["context"] = "."
 				}
@@ -65,14 +76,23 @@ func Normalize(dict map[string]any, env types.Mapping) (map[string]any, error) {
 
 			var dependsOn map[string]any
 			if d, ok := service["depends_on"]; ok {
-				dependsOn = d.(map[string]any)
+				dependsOn, ok = d.(map[string]any)
+				if !ok {
+					return nil, fmt.Errorf("services.%s.depends_on: unexpected type %T", name, d)
+				}
 			} else {
 				dependsOn = map[string]any{}
 			}
 			if l, ok := service["links"]; ok {
-				links := l.([]any)
+				links, ok := l.([]any)
+				if !ok {
+					return nil, fmt.Errorf("services.%s.links: unexpected type %T", name, l)
+				}
 				for _, e := range links {
-					link := e.(string)
+					link, ok := e.(string)
+					if !ok {
+						return nil, fmt.Errorf("services.%s.links: unexpected type %T", name, e)
+					}
 					parts := strings.Split(link, ":")
 					if len(parts) == 2 {
 						link = parts[0]
@@ -104,10 +124,19 @@ func Normalize(dict map[string]any, env types.Mapping) (map[string]any, error) {
 			}
 
 			if v, ok := service["volumes"]; ok {
-				volumes := v.([]any)
+				volumes, ok := v.([]any)
+				if !ok {
+					return nil, fmt.Errorf("services.%s.volumes: unexpected type %T", name, v)
+				}
 				for i, volume := range volumes {
-					vol := volume.(map[string]any)
-					target := vol["target"].(string)
+					vol, ok := volume.(map[string]any)
+					if !ok {
+						return nil, fmt.Errorf("services.%s.volumes[%d]: unexpected type %T", name, i, volume)
+					}
+					target, ok := vol["target"].(string)
+					if !ok {
+						return nil, fmt.Errorf("services.%s.volumes[%d].target: unexpected type %T", name, i, vol["target"])
+					}
 					vol["target"] = path.Clean(target)
 					volumes[i] = vol
 				}
@@ -115,9 +144,15 @@ func Normalize(dict map[string]any, env types.Mapping) (map[string]any, error) {
 			}
 
 			if n, ok := service["volumes_from"]; ok {
-				volumesFrom := n.([]any)
+				volumesFrom, ok := n.([]any)
+				if !ok {
+					return nil, fmt.Errorf("services.%s.volumes_from: unexpected type %T", name, n)
+				}
 				for _, v := range volumesFrom {
-					vol := v.(string)
+					vol, ok := v.(string)
+					if !ok {
+						return nil, fmt.Errorf("services.%s.volumes_from: unexpected type %T", name, v)
+					}
 					if !strings.HasPrefix(vol, types.ContainerPrefix) {
 						spec := strings.Split(vol, ":")
 						if _, ok := dependsOn[spec[0]]; !ok {
@@ -138,15 +173,20 @@ func Normalize(dict map[string]any, env types.Mapping) (map[string]any, error) {
 
 		dict["services"] = services
 	}
-	setNameFromKey(dict)
+	if err := setNameFromKey(dict); err != nil {
+		return nil, err
+	}
 
 	return dict, nil
 }
 
-func normalizeNetworks(dict map[string]any) {
+func normalizeNetworks(dict map[string]any) error {
 	var networks map[string]any
 	if n, ok := dict["networks"]; ok {
-		networks = n.(map[string]any)
+		networks, ok = n.(map[string]any)
+		if !ok {
+			return fmt.Errorf("networks: unexpected type %T", n)
+		}
 	} else {
 		networks = map[string]any{}
 	}
@@ -155,9 +195,15 @@ func normalizeNetworks(dict map[string]any) {
 	usesDefaultNetwork := false
 
 	if s, ok := dict["services"]; ok {
-		services := s.(map[string]any)
+		services, ok := s.(map[string]any)
+		if !ok {
+			return fmt.Errorf("services: unexpected type %T", s)
+		}
 		for name, se := range services {
-			service := se.(map[string]any)
+			service, ok := se.(map[string]any)
+			if !ok {
+				return fmt.Errorf("services.%s: unexpected type %T", name, se)
+			}
 			if _, ok := service["network_mode"]; ok {
 				continue
 			}
@@ -166,7 +212,10 @@ func normalizeNetworks(dict map[string]any) {
 				service["networks"] = map[string]any{"default": nil}
 				usesDefaultNetwork = true
 			} else {
-				net := n.(map[string]any)
+				net, ok := n.(map[string]any)
+				if !ok {
+					return fmt.Errorf("services.%s.networks: unexpected type %T", name, n)
+				}
 				if len(net) == 0 {
 					// networks section declared but empty (corner case)
 					service["networks"] = map[string]any{"default": nil}
@@ -188,6 +237,7 @@ func normalizeNetworks(dict map[string]any) {
 	if len(networks) > 0 {
 		dict["networks"] = networks
 	}
+	return nil
 }
 
 func resolve(a any, fn func(s string) (string, bool), keepEmpty bool) (any, bool) {
@@ -231,17 +281,23 @@ func resolve(a any, fn func(s string) (string, bool), keepEmpty bool) (any, bool
 }
 
 // Resources with no explicit name are actually named by their key in map
-func setNameFromKey(dict map[string]any) {
+func setNameFromKey(dict map[string]any) error {
 	for _, r := range []string{"networks", "volumes", "configs", "secrets"} {
 		a, ok := dict[r]
 		if !ok {
 			continue
 		}
-		toplevel := a.(map[string]any)
-		for key, r := range toplevel {
+		toplevel, ok := a.(map[string]any)
+		if !ok {
+			return fmt.Errorf("%s: unexpected type %T", r, a)
+		}
+		for key, e := range toplevel {
 			var resource map[string]any
-			if r != nil {
-				resource = r.(map[string]any)
+			if e != nil {
+				resource, ok = e.(map[string]any)
+				if !ok {
+					return fmt.Errorf("%s.%s: unexpected type %T", r, key, e)
+				}
 			} else {
 				resource = map[string]any{}
 			}
@@ -255,6 +311,7 @@ func setNameFromKey(dict map[string]any) {
 			toplevel[key] = resource
 		}
 	}
+	return nil
 }
 
 func isTrue(x any) bool {
